@@ -42,6 +42,10 @@ type SchedDelay struct {
 	Client int `json:"client"`
 	Nth    int `json:"nth"`
 	Len    int `json:"len"`
+	// Kind "error": the GETs fail with a transport error instead of answering "no such
+	// object". A version may be skipped when its nodes are not visible yet, never because a
+	// request failed: an open hit by such a window fails, or succeeds under the full oracle.
+	Kind string `json:"kind,omitempty"`
 }
 
 func genSchedCase(t *rapid.T) SchedCase {
@@ -73,7 +77,8 @@ func genSchedCase(t *rapid.T) SchedCase {
 		nd := rapid.IntRange(1, 3).Draw(t, "ndelays")
 		for i := 0; i < nd; i++ {
 			c.Delays = append(c.Delays, SchedDelay{Client: rapid.IntRange(0, n-1).Draw(t, "dclient"),
-				Nth: rapid.IntRange(0, 5).Draw(t, "dnth"), Len: rapid.IntRange(1, 2).Draw(t, "dlen")})
+				Nth: rapid.IntRange(0, 5).Draw(t, "dnth"), Len: rapid.IntRange(1, 2).Draw(t, "dlen"),
+				Kind: rapid.SampledFrom([]string{"", "", "error"}).Draw(t, "dkind")})
 		}
 	}
 	return c
@@ -245,7 +250,8 @@ func runSchedOn(c SchedCase, o *Obs, sc *sched) error {
 	var mu sync.Mutex
 	creator := map[string]int{} // node object -> client that stored it first
 	foreignGets := make([]int, n)
-	hits := make([]int, n) // delayed answers handed to each client so far
+	hits := make([]int, n)    // delayed answers handed to each client so far
+	errHits := make([]int, n) // transport errors handed to each client so far
 	store.Intercept = func(q *fakes3.Req) error {
 		ci := clientOf(q.Client)
 		if ci < 0 || ci >= n {
@@ -268,6 +274,10 @@ func runSchedOn(c SchedCase, o *Obs, sc *sched) error {
 					foreignGets[ci]++
 					for _, d := range c.Delays {
 						if d.Client == ci && k >= d.Nth && k < d.Nth+d.Len {
+							if d.Kind == "error" {
+								errHits[ci]++
+								return fakes3.ErrInjected
+							}
 							hits[ci]++
 							return fakes3.ErrNoSuchKey()
 						}
@@ -282,7 +292,7 @@ func runSchedOn(c SchedCase, o *Obs, sc *sched) error {
 	hitsOf := func(ci int) int {
 		mu.Lock()
 		defer mu.Unlock()
-		return hits[ci]
+		return hits[ci] + errHits[ci] // an operation hit by either kind may fail
 	}
 	uncertain := make([]MSet, n) // state after a write that failed while nodes were delayed
 	commits := make([][]commitRec, n)
@@ -311,7 +321,7 @@ func runSchedOn(c SchedCase, o *Obs, sc *sched) error {
 			wconn := conn
 			regressed := false
 			wt := int64(0)
-			h0 := 0
+			h0, d0 := 0, 0 // baselines of (all hits, "no such object" hits) at the start of the operation
 			// tolerated: an operation during which a node was not visible may fail; the
 			// client then stops (what it acknowledged before stays required)
 			tolerated := func() bool {
@@ -329,12 +339,15 @@ func runSchedOn(c SchedCase, o *Obs, sc *sched) error {
 				end := sc.tick()
 				mu.Lock()
 				defer mu.Unlock()
-				opens = append(opens, openRec{ci, begin, end, rows, what, hits[ci] > h0})
+				opens = append(opens, openRec{ci, begin, end, rows, what, hits[ci] > d0})
 				if conn == wconn {
 					view = own.Clone()
 					regressed = false
 				}
-				if hits[ci] > h0 {
+				if errHits[ci] > 0 && hits[ci] == d0 && hits[ci]+errHits[ci] > h0 {
+					o.Class("open-succeeded-despite-transport-error-on-a-node")
+				}
+				if hits[ci] > d0 {
 					o.Class("delayed-node-open-succeeded")
 					// a version whose nodes were not visible was skipped; when it is the one
 					// this client's own earlier commits were merged into, the handle is back at
@@ -377,6 +390,9 @@ func runSchedOn(c SchedCase, o *Obs, sc *sched) error {
 			for i, op := range c.Scripts[ci] {
 				where := fmt.Sprintf("client %d op %d (%s)", ci, i, op.Op)
 				h0 = hitsOf(ci)
+				mu.Lock()
+				d0 = hits[ci]
+				mu.Unlock()
 				switch op.Op {
 				case "ins", "upd", "del":
 					var st Stmt
@@ -619,7 +635,7 @@ func runSchedOn(c SchedCase, o *Obs, sc *sched) error {
 func init() { register("TestC03_Sched", runSched) }
 
 func TestC03_Sched(t *testing.T) {
-	st := newStats(t, "C03", "TestC03_Sched", "2-3 clients, each a script of 1-6 operations on its own key range (INSERT/UPDATE/DELETE in autocommit mode with explicit write times, s3db_refresh, read-only open), all on one bucket prefix, plus a generated schedule of up to 120 choices: every client blocks in the fake store before each LIST and each GET/PUT/DELETE under root/ and runs only when the scheduler releases it, so exactly one client runs at a time and the interleaving of version-level requests is the generated one; for every completed open or refresh the rows of every client must equal one of that client's committed states j with lo<=j<=hi (lo = commits acknowledged before the open began, hi = commits started before it ended; the opener's own commits all count); at the end a fresh open must equal the union of all acknowledged commits; in a third of the cases 1-3 generated windows of delayed visibility are added (a client's GETs number n..n+len-1 of tree nodes stored by another client answer 'no such object' although the PUT was acknowledged): an operation hit by one may fail (the client stops) or skip the version, opens hit by one are exempt from the per-open oracle, a handle that lost sight of its own rows only inserts unused keys until its next undisturbed refresh, and all undisturbed opens and the final open keep the full oracle; non-trivial = a schedule in which an open's LIST and a later GET of a version are separated by another client's PUT/DELETE under root/")
+	st := newStats(t, "C03", "TestC03_Sched", "2-3 clients, each a script of 1-6 operations on its own key range (INSERT/UPDATE/DELETE in autocommit mode with explicit write times, s3db_refresh, read-only open), all on one bucket prefix, plus a generated schedule of up to 120 choices: every client blocks in the fake store before each LIST and each GET/PUT/DELETE under root/ and runs only when the scheduler releases it, so exactly one client runs at a time and the interleaving of version-level requests is the generated one; for every completed open or refresh the rows of every client must equal one of that client's committed states j with lo<=j<=hi (lo = commits acknowledged before the open began, hi = commits started before it ended; the opener's own commits all count); at the end a fresh open must equal the union of all acknowledged commits; in a third of the cases 1-3 generated windows of delayed visibility are added (a client's GETs number n..n+len-1 of tree nodes stored by another client answer 'no such object' although the PUT was acknowledged): an operation hit by one may fail (the client stops) or skip the version, opens hit by one are exempt from the per-open oracle (a third of the windows hand out transport errors instead: an open hit by those fails or is held to the full oracle), a handle that lost sight of its own rows only inserts unused keys until its next undisturbed refresh, and all undisturbed opens and the final open keep the full oracle; non-trivial = a schedule in which an open's LIST and a later GET of a version are separated by another client's PUT/DELETE under root/")
 	st.Assume = append(st.Assume,
 		"node-object requests pass without yielding (content-addressed, never deleted in these scripts, commute)",
 		"concurrent vacuum is not part of the scripts")
